@@ -14,6 +14,7 @@ import CompmechVerif.Gen.Panel.KPanel
 import CompmechVerif.Spec.Kinematics
 import CompmechVerif.Core.OpSpecTactics
 import CompmechVerif.Core.OpSpecLemmas
+import CompmechVerif.Spec.WholeMatrix
 import Mathlib.Tactic.FinCases
 import Mathlib.Data.Fintype.Basic
 
@@ -84,5 +85,88 @@ theorem kMy1y2_symm_kpanel (P : PCtx K) (ha : P.a ≠ 0) (hb : P.b ≠ 0) (ro co
     KPanel.fkMy1y2.entry ro co P = KPanel.fkMy1y2.entry co ro P.swap := by
   rw [kMy1y2_entry_kpanel_partial P ha hb, kMy1y2_entry_kpanel_partial P.swap ha hb]
   exact (hessian_swap P _ _ (velOps P) (massW P (-P.d)) (massW_symm P (-P.d)) _ _).symm
+
+
+/-! ### the whole matrix (loop nest of Model/PanelLoop.lean + `finalize_symmetric_matrix`): the kinetic-energy Hessian at every pair of positions -/
+
+/-- the regenerated kernels have exactly the modelled loop nest, dof map, skip condition and section geometry -/
+theorem loop_nest_standard :
+    Plate.fkM.schema = LoopSchema.std 3 none ∧
+    Plate.fkMy1y2.schema = LoopSchema.stdYX 3 ∧
+    CPanel.fkM.schema = LoopSchema.std 3 none ∧
+    CPanel.fkMy1y2.schema = LoopSchema.stdYX 3 ∧
+    KPanel.fkM.schema = LoopSchema.std 3 (some 41) ∧
+    KPanel.fkMy1y2.schema = LoopSchema.std 3 (some 41) := by
+  decide
+
+open Compmech.Asm in
+theorem kM_matrix_plate (base : PCtx K) (I : Integrals K) (hI : I.Comm) (ha : base.a ≠ 0) (hb : base.b ≠ 0)
+    (m n row0 : Nat) {i k j l : Nat} (hi : i < m) (hk : k < m) (hj : j < n) (hl : l < n) (α β : Fin 3) :
+    toFun (panelCoo 3 m n row0 Plate.fkM.entry base I) (row0 + 3 * (j * m + i) + α.val)
+        (row0 + 3 * (l * m + k) + β.val)
+      = hessian (ctxAt base I i k j l) .full .full (velOps base) (massW base (-base.d)) (fld3 α) (fld3 β) := by
+  rw [panelCoo_entry 3 m n row0 _ base I hI
+    (fun ro co i k j l => kM_symm_plate (ctxAt base I i k j l) ha hb ro co) hi hk hj hl]
+  exact kM_entry_plate_partial (ctxAt base I i k j l) ha hb α β
+
+open Compmech.Asm in
+theorem kMy1y2_matrix_plate (base : PCtx K) (I : Integrals K) (hI : I.Comm) (ha : base.a ≠ 0) (hb : base.b ≠ 0)
+    (m n row0 : Nat) {i k j l : Nat} (hi : i < m) (hk : k < m) (hj : j < n) (hl : l < n) (α β : Fin 3) :
+    toFun (panelCooYX 3 m n row0 Plate.fkMy1y2.entry base I) (row0 + 3 * (j * m + i) + α.val)
+        (row0 + 3 * (l * m + k) + β.val)
+      = hessian (ctxAt base I i k j l) .full .sub (velOps base) (massW base (-base.d)) (fld3 α) (fld3 β) := by
+  rw [panelCooYX_entry 3 m n row0 _ base I hI
+    (fun ro co i k j l => kMy1y2_symm_plate (ctxAt base I i k j l) ha hb ro co) hi hk hj hl]
+  exact kMy1y2_entry_plate_partial (ctxAt base I i k j l) ha hb α β
+
+open Compmech.Asm in
+theorem kM_matrix_cpanel (base : PCtx K) (I : Integrals K) (hI : I.Comm) (ha : base.a ≠ 0) (hb : base.b ≠ 0)
+    (m n row0 : Nat) {i k j l : Nat} (hi : i < m) (hk : k < m) (hj : j < n) (hl : l < n) (α β : Fin 3) :
+    toFun (panelCoo 3 m n row0 CPanel.fkM.entry base I) (row0 + 3 * (j * m + i) + α.val)
+        (row0 + 3 * (l * m + k) + β.val)
+      = hessian (ctxAt base I i k j l) .full .full (velOps base) (massW base (-base.d)) (fld3 α) (fld3 β) := by
+  rw [panelCoo_entry 3 m n row0 _ base I hI
+    (fun ro co i k j l => kM_symm_cpanel (ctxAt base I i k j l) ha hb ro co) hi hk hj hl]
+  exact kM_entry_cpanel_partial (ctxAt base I i k j l) ha hb α β
+
+open Compmech.Asm in
+theorem kMy1y2_matrix_cpanel (base : PCtx K) (I : Integrals K) (hI : I.Comm) (ha : base.a ≠ 0) (hb : base.b ≠ 0)
+    (m n row0 : Nat) {i k j l : Nat} (hi : i < m) (hk : k < m) (hj : j < n) (hl : l < n) (α β : Fin 3) :
+    toFun (panelCooYX 3 m n row0 CPanel.fkMy1y2.entry base I) (row0 + 3 * (j * m + i) + α.val)
+        (row0 + 3 * (l * m + k) + β.val)
+      = hessian (ctxAt base I i k j l) .full .sub (velOps base) (massW base (-base.d)) (fld3 α) (fld3 β) := by
+  rw [panelCooYX_entry 3 m n row0 _ base I hI
+    (fun ro co i k j l => kMy1y2_symm_cpanel (ctxAt base I i k j l) ha hb ro co) hi hk hj hl]
+  exact kMy1y2_entry_cpanel_partial (ctxAt base I i k j l) ha hb α β
+
+open Compmech.Asm in
+theorem kM_matrix_kpanel (base : PCtx K) (I : Nat → Integrals K) (hI : ∀ sec, (I sec).Comm) (s : Nat)
+    (ha : base.a ≠ 0) (hb : ∀ sec, (sectionBase base s sec).b ≠ 0)
+    (m n row0 : Nat) {i k j l : Nat} (hi : i < m) (hk : k < m) (hj : j < n) (hl : l < n) (α β : Fin 3) :
+    toFun (conePanelCoo s 3 m n row0 KPanel.fkM.entry base I) (row0 + 3 * (j * m + i) + α.val)
+        (row0 + 3 * (l * m + k) + β.val)
+      = ((List.range s).map fun sec =>
+          hessian (ctxAt (sectionBase base s sec) (I sec) i k j l) .sub .full (velOps (sectionBase base s sec))
+            (massW (sectionBase base s sec) (-base.d)) (fld3 α) (fld3 β)).sum := by
+  rw [conePanelCoo_entry s 3 m n row0 _ base I hI
+    (fun sec ro co i k j l => kM_symm_kpanel (ctxAt (sectionBase base s sec) (I sec) i k j l) ha (hb sec) ro co)
+    hi hk hj hl]
+  refine congrArg List.sum (List.map_congr_left fun sec _ => ?_)
+  exact kM_entry_kpanel_partial (ctxAt (sectionBase base s sec) (I sec) i k j l) ha (hb sec) α β
+
+open Compmech.Asm in
+theorem kMy1y2_matrix_kpanel (base : PCtx K) (I : Nat → Integrals K) (hI : ∀ sec, (I sec).Comm) (s : Nat)
+    (ha : base.a ≠ 0) (hb : ∀ sec, (sectionBase base s sec).b ≠ 0)
+    (m n row0 : Nat) {i k j l : Nat} (hi : i < m) (hk : k < m) (hj : j < n) (hl : l < n) (α β : Fin 3) :
+    toFun (conePanelCoo s 3 m n row0 KPanel.fkMy1y2.entry base I) (row0 + 3 * (j * m + i) + α.val)
+        (row0 + 3 * (l * m + k) + β.val)
+      = ((List.range s).map fun sec =>
+          hessian (ctxAt (sectionBase base s sec) (I sec) i k j l) .sub .sub (velOps (sectionBase base s sec))
+            (massW (sectionBase base s sec) (-base.d)) (fld3 α) (fld3 β)).sum := by
+  rw [conePanelCoo_entry s 3 m n row0 _ base I hI
+    (fun sec ro co i k j l => kMy1y2_symm_kpanel (ctxAt (sectionBase base s sec) (I sec) i k j l) ha (hb sec) ro co)
+    hi hk hj hl]
+  refine congrArg List.sum (List.map_congr_left fun sec _ => ?_)
+  exact kMy1y2_entry_kpanel_partial (ctxAt (sectionBase base s sec) (I sec) i k j l) ha (hb sec) α β
 
 end Compmech.Panel.C04
